@@ -232,6 +232,18 @@ def run(tier: str) -> int:
             else:
                 evs += halton_event(d, seed, sizes)
             evs.append(rseq_event(d, seed, sizes))
+        # seeds whose start index lies just below 2^16: the sequence goes on beyond it (indices up to 2^16 + 2^12 are in scope)
+        from black_it.samplers.halton import HaltonSampler
+
+        found, sd = [], rng.randrange(2**20)
+        while len(found) < (4 if tier == "quick" else 24) and sd < 2**31:
+            sd += 1
+            st = _start_from_first_point(HaltonSampler(batch_size=1, random_state=sd, max_deduplication_passes=0)._halton(1, 1)[0, 0])  # noqa: SLF001
+            if 2**16 - 40 <= st < 2**16:
+                found.append(sd)
+        for sd in found:
+            evs += halton_event(rng.choice([1, 2, 5, 13]), sd, [rng.randint(3, 9) for _ in range(12)])
+        chk.extra["halton_runs_crossing_2^16"] = len(found)
         for _ in range(6 if tier == "quick" else 40):
             evs.append(snapped_halton_event(rng.randint(1, 4), rng.randrange(2**31), [rng.randint(1, 5) for _ in range(3)]))
     bad_shape = [e for e in evs if e.get("rows_per_batch_ok") is False]
